@@ -228,6 +228,17 @@ inline void runC12sched(Ctx &c)
                     oc.prog.bar_c[j] = oc.ref.P(wi, j);
                 c.event("program.hard_barrier");
             }
+            else if (r.coin(0.25))
+            {
+                // every term the integrator sees is subnormal (a cost expressed in tiny units): still plain IEEE arithmetic, so
+                // still the same bits on whichever thread a segment is processed
+                oc.prog.has_time = false;
+                oc.prog.has_wp = false;
+                oc.prog.out_scale = r.pick(std::vector<double>{1e-307, 1e-309, 1e-312, 1e-316});
+                oc.rho = 0;
+                rig.opt->setRho(0);
+                c.event("program.subnormal_magnitudes");
+            }
             c.nontrivial(hashOptCase(oc, &x));
             if (idx < 1)
                 c.wantSample();
@@ -331,6 +342,16 @@ inline void runC12sched(Ctx &c)
                 o.partitionSeed = r.u64();
                 runWith(o, "threads=" + std::to_string(o.threads));
             }
+            // a persistent worker pool (threads older than the call), the caller taking a share of the segments itself
+            for (int rep = 0; rep < (thorough ? 8 : 3); ++rep)
+            {
+                EvalOpts o;
+                o.executor = 5;
+                o.threads = r.pick(std::vector<int>{1, 2, 3});
+                o.partitionSeed = r.u64();
+                runWith(o, "persistent_pool=" + std::to_string(o.threads));
+                c.event("schedules_run.persistent_pool");
+            }
         }
     }
 }
@@ -431,6 +452,16 @@ inline void runC15(Ctx &c)
                     tmp.tmH = L.cfg.userTm ? tmp.env->newTimeMap(L.cfg.tmc) : -1;
                     tmp.smH = L.cfg.userSm ? tmp.env->newSpatialMap(L.cfg.smc) : -1;
                     VectorXd x = genDecisionVector(r, L.cfg, tmp);
+                    if (r.coin(0.5))
+                    {
+                        // the starting point an optimisation of this object would use belongs to ITS configuration as well
+                        VectorXd g0 = L.opt->initialGuess(), gm = initialGuessModel(L.cfg, *tmp.env, tmp.tmH, tmp.smH);
+                        bool ok = g0.size() == gm.size();
+                        for (int i = 0; ok && i < g0.size(); ++i)
+                            ok = std::fabs(g0(i) - gm(i)) <= 1e-12 * (1 + std::fabs(gm(i)));
+                        c.require("C15.initial_guess_follows_own_configuration", ok, okey(L.cfg, "copy_value"), when + " obj" + std::to_string(q));
+                        c.event("initial_guess_checks");
+                    }
                     std::vector<const void *> tlog, slog;
                     g_timeMapCallLog = &tlog;
                     g_spatialMapCallLog = &slog;
@@ -469,7 +500,9 @@ inline void runC15(Ctx &c)
                         if (live.size() < 5)
                         {
                             LiveOpt L;
-                            L.opt = live[a].opt->clone();
+                            const bool byMove = r.coin(0.3); // construction from an rvalue whose storage is released straight afterwards
+                            L.opt = byMove ? live[a].opt->cloneByMove() : live[a].opt->clone();
+                            c.event(byMove ? "op.construct_from_rvalue" : "op.copy_construct");
                             L.cfg = live[a].cfg;
                             L.tmH = live[a].tmH;
                             L.smH = live[a].smH;
@@ -498,7 +531,12 @@ inline void runC15(Ctx &c)
                         }
                         else
                         {
-                            live[b].opt->assignFrom(*live[a].opt);
+                            const bool byMove = r.coin(0.3);
+                            if (byMove)
+                                live[b].opt->assignFromMoved(*live[a].opt);
+                            else
+                                live[b].opt->assignFrom(*live[a].opt);
+                            c.event(byMove ? "op.assign_from_rvalue" : "op.assign");
                             live[b].cfg = live[a].cfg;
                             live[b].tmH = live[a].tmH;
                             live[b].smH = live[a].smH;
@@ -620,14 +658,40 @@ inline void runC15(Ctx &c)
             Observables o0 = observe(*src, u, ts, true);
             if (r.coin())
                 (void)observe(*cp, u, ts, false); // the copy may or may not have been evaluated before the source changes
+            // snapshots of the exposed trajectory taken through the copy getters are independent objects as well
+            auto snap = src->trajectoryCopy(r.coin());
+            const MatrixXd snapC = snap->coefficients();
+            std::vector<VectorXd> snapVals;
+            const double tsn = p.t0 + r.uni(0, 1) * p.T[0];
+            for (int k = 0; k <= 2; ++k)
+                snapVals.push_back(snap->eval(tsn, k));
+            bool snapChecked = false;
             // mutate (and use) or destroy the source
             if (r.coin(0.7))
             {
                 Problem q = genProblem(r, od.first, od.second, r.coin() ? p.N : r.range(1, 9));
-                if (r.coin())
+                if (r.coin(0.3))
+                {
+                    // a reference bound to the result of a copy getter, read after the source has moved on
+                    MatrixXd cRef;
+                    std::vector<double> bpRef;
+                    const MatrixXd cNow = src->coeffs();
+                    const std::vector<double> bpNow = src->breakpoints();
+                    src->copyRefThenUpdate(r.coin(), q.T, q.P, q.t0, q.bc, cRef, bpRef);
+                    c.require("C15.reference_to_trajectory_copy_is_a_snapshot", bitEqualMat(cRef, cNow) && bitEqualVec(bpRef, bpNow), gkey(p, "spline_copy"));
+                    c.event("spline_copy.reference_bound_to_copy_getter");
+                }
+                else if (r.coin())
                     src->updateDur(q.T, q.P, q.t0, q.bc);
                 else
                     src->updatePts(q.timePoints(), q.P, q.bc);
+                {
+                    bool same = bitEqualMat(snap->coefficients(), snapC);
+                    for (int k = 0; k <= 2; ++k)
+                        same = same && bitEqualMat(snap->eval(tsn, k), snapVals[k]);
+                    c.require("C15.trajectory_snapshot_independent_of_source", same, gkey(p, "spline_copy"));
+                    snapChecked = true;
+                }
                 if (r.coin(0.8))
                 {
                     std::vector<double> tq{q.t0, q.t0 + 0.3 * q.T[0]};
@@ -638,6 +702,13 @@ inline void runC15(Ctx &c)
             }
             else
                 src.reset();
+            if (!snapChecked)
+            {
+                bool same = bitEqualMat(snap->coefficients(), snapC);
+                for (int k = 0; k <= 2; ++k)
+                    same = same && bitEqualMat(snap->eval(tsn, k), snapVals[k]);
+                c.require("C15.trajectory_snapshot_independent_of_source", same, gkey(p, "spline_copy"));
+            }
             Observables o1 = observe(*cp, u, ts, true);
             c.require("C15.spline_copy_independent_of_source", compareObs(o1, o0, true).empty(), gkey(p, "spline_copy"), compareObs(o1, o0, true));
             cp->selfAssign();
@@ -918,6 +989,36 @@ inline void runC16opt(Ctx &c)
                     snprintf(b, sizeof b, "threshold time_point_gap[%d]=%a", i, dv);
                     apply(in, b);
                 }
+            // extreme but finite values are valid: the predicate is per element (a running sum of the durations may overflow)
+            {
+                const double Big = 1e308, Max = std::numeric_limits<double>::max();
+                ValidityInput in = mk(false);
+                for (auto &t : in.T)
+                    t = Big;
+                apply(in, "extreme all_durations_1e308");
+                in = mk(false);
+                in.T[0] = Max;
+                in.T[N - 1] = Max;
+                apply(in, "extreme first_and_last_duration_DBL_MAX");
+                in = mk(false);
+                in.t0 = 1.2e308;
+                in.T[N - 1] = Big;
+                apply(in, "extreme start_1.2e308_plus_duration_1e308");
+                in = mk(false);
+                in.t0 = -Max;
+                apply(in, "extreme start_minus_DBL_MAX");
+                in = mk(r.coin());
+                in.P(r.range(0, N), r.range(0, dim - 1)) = r.coin() ? Max : -Max;
+                apply(in, "extreme waypoint_DBL_MAX");
+                in = mk(r.coin());
+                (r.coin() ? in.bc.s(1) : in.bc.e(1))(r.range(0, dim - 1)) = -Max;
+                apply(in, "extreme boundary_velocity_DBL_MAX");
+                in = mk(true);
+                in.tp[0] = -Big;
+                for (int q = 0; q < N; ++q)
+                    in.tp[q + 1] = in.tp[q] + 2.0 * Big / N;
+                apply(in, "extreme time_points_spanning_2e308");
+            }
             // by time points: equal / decreasing points give zero / negative durations
             {
                 ValidityInput in = mk(true);
@@ -998,9 +1099,44 @@ inline void runC19(Ctx &c)
                 c.event("self_check_after_unqueried_reconfiguration");
             }
             // three variants: correct functors, then one perturbed gradient component
-            for (int variant = 0; variant < 3; ++variant)
+            for (int variant = 0; variant < 4; ++variant)
             {
                 CostProgram prog = oc.prog;
+                double rhoV = oc.rho;
+                if (variant == 3)
+                {
+                    // a functor that returns its value but forgets (part of) its gradient, in a problem where nothing else
+                    // contributes to the affected variables: the analytic entries are exactly zero and wrong
+                    if (!r.coin(0.5))
+                        continue;
+                    prog = CostProgram::zero(cl.dim);
+                    rhoV = 0.0;
+                    if (three && r.coin())
+                    {
+                        prog.has_wp = true;
+                        prog.w_quad = r.uni(0.2, 1.0);
+                        for (int j = 0; j < cl.dim; ++j)
+                            prog.w_target[j] = r.uni(-1, 1);
+                        prog.pert = PERT_WP_OMIT_ROW;
+                        prog.pert_index = r.range(0, cl.N);
+                    }
+                    else
+                    {
+                        prog.has_time = true;
+                        for (auto &w : prog.tw)
+                            w = r.uni(0.3, 2.0);
+                        prog.pert = PERT_TIME_OMIT;
+                    }
+                    pertDesc = prog.describe();
+                    c.event("checks.functor_forgets_gradient");
+                }
+                struct RhoGuard
+                {
+                    IOptimizer *o;
+                    double back;
+                    ~RhoGuard() { o->setRho(back); }
+                } rhoGuard{rig.opt.get(), oc.rho};
+                rig.opt->setRho(rhoV);
                 if (variant == 2)
                 {
                     // a functor whose gradient contains a NaN while its value is finite (0/0 at rest): the self-check must not
@@ -1044,6 +1180,7 @@ inline void runC19(Ctx &c)
                 }
                 OptCase ocv = oc;
                 ocv.prog = prog;
+                ocv.rho = rhoV;
                 CheckResult res = rig.opt->checkGradients(x, prog, three, wsH, defaults, eps, tol);
                 c.event(variant == 0 ? "checks.correct_functors" : "checks.perturbed_functors");
                 std::string key = okey(oc, variant == 0 ? "self_check_correct" : "self_check_perturbed");
@@ -1088,9 +1225,10 @@ inline void runC19(Ctx &c)
                 {
                     // the helper's own finite-difference error, measured against the 4th-order oracle with correct functors
                     VectorXd gTrue;
-                    (void)evalFresh(oc, x, three, &gTrue); // gradient of the true cost = analytic gradient with correct functors (decided by C07)
+                    OptCase occ = ocv; // the same program with correct functors
+                    occ.prog.pert = PERT_NONE;
+                    (void)evalFresh(occ, x, three, &gTrue); // gradient of the true cost = analytic gradient with correct functors (decided by C07)
                     VectorXd numTrue(n);
-                    OptCase occ = oc;
                     for (int i = 0; i < n; ++i)
                     {
                         VectorXd xp = x, xm = x;
